@@ -31,7 +31,7 @@ func writeSizePreface(w io.Writer, sz int32) error {
 func writeProtoMessage(w io.Writer, codec encoding.Codec, m interface{}, end bool) error {
 	b, err := codec.Marshal(m)
 	if err != nil {
-		return err
+		return marshalError{err}
 	}
 
 	sz := len(b)
@@ -54,6 +54,12 @@ func writeProtoMessage(w io.Writer, codec encoding.Codec, m interface{}, end boo
 		}
 	}
 	return err
+}
+
+// marshalError is the error returned by writeProtoMessage when the message
+// could not be encoded, in which case nothing was written.
+type marshalError struct {
+	error
 }
 
 // readSizePreface reads a 32-bit size from the given reader. If the value is
